@@ -30,7 +30,7 @@ def variants(word):
     return sorted(outs)
 
 
-BODY = '<ab k="Vx" type="Tx" class="Cc" id="Id">t</ab><ab k="vx" type="tx" class="cc">u</ab><cd k="VX" type="TX"></cd><ab k="Vx-y" type="Tx z"></ab>'
+BODY = '<abcdefghijklm-nopqrstuvwxyz zy="Q">z</abcdefghijklm-nopqrstuvwxyz><ab k="Vx" type="Tx" class="Cc" id="Id">t</ab><ab k="vx" type="tx" class="cc">u</ab><cd k="VX" type="TX"></cd><ab k="Vx-y" type="Tx z"></ab>'
 BODY_MIXED = BODY.replace('<ab ', '<Ab ').replace('</ab>', '</Ab>').replace(' k=', ' K=').replace(' type=', ' Type=')
 
 
@@ -59,6 +59,12 @@ def selectors():
     out = []
     for t in variants('ab') + variants('cd'):
         out.append((S.cx(S.cp(S.T(t))),))
+    long = 'abcdefghijklm-nopqrstuvwxyz'
+    for t in (long, long.upper(), long.title(), long[:13].upper() + long[13:], long[:-1] + 'Z', 'A' + long[1:]):
+        out.append((S.cx(S.cp(S.T(t))),))
+    for n in variants('zy'):
+        out.append((S.cx(S.cp(None, ('attr', None, n, None, None, None))),))
+        out.append((S.cx(S.cp(None, ('attr', None, n, '=', 'Q', None))),))
     for n in variants('k'):
         out.append((S.cx(S.cp(None, ('attr', None, n, None, None, None))),))
         for op in OPS:
